@@ -95,7 +95,7 @@ func Program(p Params, onState func(s *Sys, x *mc.X)) func(x *mc.X) {
 				}
 			}
 			if doU != nil {
-				k := x.Choose(4, "tx")
+				k := x.Choose(5, "tx")
 				var rep time.Time
 				switch k {
 				case 0:
@@ -106,6 +106,8 @@ func Program(p Params, onState func(s *Sys, x *mc.X)) func(x *mc.X) {
 					rep = doU.Rx.Add(-1) // kernel time not after rx: must be bumped
 				case 3:
 					rep = doU.Txt0.Add(2 * time.Microsecond) // equal to what a sibling may hold
+				case 4:
+					rep = doU.Rx // kernel time exactly the receive time: the strict order needs a bump
 				}
 				x.Logf("U(%s rx=%s reported=%s)", doU.Client, rel(doU.Rx), rel(rep))
 				f := s.U(doU, rep)
